@@ -438,6 +438,9 @@ class P19(Plan):
         scripts_b = [[("pub", 1, 1), ("pub", 1, 2), ("adv", 5), ("ack", 1, "PUBACK", "old"), ("disconnect", 1)],
                      [("pub", 1, 2), ("ack", 1, "PUBREC", "old"), ("lose", 1, "done"), ("build", 1), ("connect", 1, True, 0, 4)],
                      [("sub", 1, "str", 1, 2), ("pub", 1, 0), ("pub", 1, 1), ("lose", 1, "reset"), ("adv", 1)]]
+        scripts_a.append([("lose", 0, "done"), ("build", 0), ("connect", 0, True, 0, 4), ("pub", 0, 1), ("connack", 0, 0, False),
+                          ("ack", 0, "PUBACK", "old")])
+        scripts_b.append([("lose", 1, "lost"), ("build", 1), ("connect", 1, False, 0, 3), ("connack", 1, 0, True), ("pub", 1, 2)])
         n = 0
         for model in MODELS:
             cfg = Cfg(profile="pubsub", model=model, jitter="const")
@@ -580,7 +583,7 @@ STATES20 = {
     "connected-busy": connected(win=4, ka=30) + [("pub", 0, 1), ("pub", 0, 2), ("ack", 0, "PUBREC", "old"), ("sub", 0, "str", 1, 1), ("unsub", 0, "str", 1)],
     "connected-full": connected(win=1) + [("pub", 0, 1), ("pub", 0, 1), ("pub", 0, 0)],
 }
-POST20 = [("pub", 0, 1), ("adv", 3), ("ack", 0, "PUBACK", "old"), ("adv", 40), ("lose", 0, "lost"), ("adv", 2)]
+POST20 = [("pub", 0, 1, False, 3000), ("adv", 45), ("ack", 0, "PUBACK", "old"), ("pub", 0, 2), ("adv", 9), ("lose", 0, "lost"), ("adv", 2)]
 
 
 def where_allowed(op, prof, state):
